@@ -87,6 +87,12 @@ func (p *parser) parse() (pq *proto.Query, err error) {
 
 	}
 
+	// the whole input must have been consumed: anything left over after a complete query
+	// (e.g. the "| c" in "a & b | c") is an error, not something to silently drop.
+	if p.peek().typ != itemEOF {
+		p.errorf("unexpected %s after end of query", p.peek())
+	}
+
 	pq = &proto.Query{
 		Expr:    expr,
 		GroupBy: groupBy,
